@@ -174,6 +174,7 @@ func Yield(tag string) { runtime.Gosched() }
 // Quiesce: wait until the other goroutines of the scenario have stopped making progress.
 func Quiesce() { time.Sleep(150 * time.Millisecond) }
 func Threads() {}
+func SwitchBudget(n int) {}
 
 // Hook replaces a repository function by a harness function inside the engine only (no native effect).
 func Hook(name string, f interface{}) {}
